@@ -146,6 +146,16 @@ class C01(Check):
             add("auth", big=True, path=0, mode=mode, tx=txi, index=0, receipt=r.hex(" "),
                 proof=[rng.nz_bytes(n).hex(" ") for n in pr], ws=rng.nz_bytes(wl).hex(" "), value=7,
                 spell="blanks")
+        # parts that take more than a thousand / tens of thousands of messages: long receipts asked for
+        # byte by byte, a transaction of 90 kB in firmware-sized requests, the largest proof
+        manyin = reqs.mk_tx(rng, [reqs.signed_script(rng, 2, (True, True), redeem)] * 400, nout=2)
+        self.txs.append(manyin)
+        add("auth", big=True, long=True, path=0, mode="legacy", tx=len(self.txs) - 1, index=399,
+            receipt=reqs.mk_receipt(rng, 3000).hex(), proof=[rng.nz_bytes(255).hex() for _ in range(20)],
+            ws=ws.hex(), value=7)
+        add("auth", big=True, long=True, path=1, mode="segwit", tx=0, index=0,
+            receipt=reqs.mk_receipt(rng, 1100).hex(), proof=[rng.nz_bytes(255).hex() for _ in range(255)],
+            ws=ws.hex(), value=7)
         # repeated entries: the same node several times, a receipt equal to a node
         node = rng.nz_bytes(40).hex()
         add("auth", path=1, mode="legacy", tx=1, index=1, receipt=receipt.hex(),
@@ -159,6 +169,10 @@ class C01(Check):
     def cases(self):
         cs = []
         for i, s in enumerate(self.shapes):
+            if s.get("long"):
+                for force in (80, 1, 255) if (self.thorough or i % 2 == 0) else (80, 7):
+                    cs.append({"kind": "shape", "shape": i, "force": force})
+                continue
             cs.append({"kind": "shape", "shape": i})
         # every composition of short receipts / proofs
         for L in range(3, self.compose_max + 1):
@@ -202,7 +216,9 @@ class C01(Check):
             import copy
             lens = {k: len(exp[k]) for k in ("btc", "receipt", "proof")} if exp["auth"] else {}
             dev = PolicySigner(ctx, lens, exp["auth"], self.ders, compose=compose)
-            w = World(dev, max_exchanges=3000)
+            if s.get("long"):
+                dev.force_sticky = s.get("force", 80)
+            w = World(dev, max_exchanges=200000 if s.get("long") else 3000)
             proto = harness.make_protocol(w, v1=exp["v1"])
             reply, exc = harness.handle_request(proto, copy.deepcopy(req))
             return dev, w, reply, exc
@@ -337,10 +353,14 @@ class C01(Check):
             return self.sequence(case, stats)
         if case["kind"] in ("shape", "one-shape"):
             s = self.shapes[case["shape"]]
+            if s.get("long"):
+                s = dict(s, force=case.get("force", 80))
             run, exp = self.driver(s)
             bound = self.bound
             if s["big"]:
                 bound = 2 if self.thorough else 1
+            if s.get("long"):
+                bound = 0        # thousands of exchanges: the default answers only (the size is forced)
         else:
             rng = Rng("c01-compose-%s-%d" % (case["phase"], case["L"]))
             base = dict(self.shapes[0])
